@@ -93,37 +93,91 @@ def extract(ctx, modname):
     for i, c in enumerate(match.cases):
         classes, caps = _pattern_classes(ctx, m, c.pattern)
         states, other = [], []
+        cn = next(n for n in mr.cfg.nodes if n.kind == "case" and n.ast is c)
         if c.guard is not None:
-            g_atoms = bool_atoms(c.guard) if not (isinstance(c.guard, ast.BoolOp) and isinstance(c.guard.op, ast.Or)) else [c.guard]
+            guard = mr.expand(c.guard, cn)  # a local that holds self._state reads as self._state
+            g_atoms = bool_atoms(guard) if not (isinstance(guard, ast.BoolOp) and isinstance(guard.op, ast.Or)) else [guard]
             for a in g_atoms:
-                if isinstance(a, ast.Compare) and len(a.ops) == 1 and isinstance(a.ops[0], ast.Eq) and dotted(a.left) == "self._state":
-                    states.append((dotted(a.comparators[0]) or "?").split(".")[-1])
-                elif isinstance(a, ast.Compare) and len(a.ops) == 1 and isinstance(a.ops[0], ast.Eq) and dotted(a.comparators[0]) == "self._state":
-                    states.append((dotted(a.left) or "?").split(".")[-1])
+                st = _state_test(a)
+                if st is not None and st[0] == "in":
+                    states.extend(st[1])
                 else:
                     other.append(a)
-        cs = Case(i, c, classes, caps, states, other)
-        cn = next(n for n in mr.cfg.nodes if n.kind == "case" and n.ast is c)
-        for n in mr.cfg.nodes:
-            if n.ast is None or n.kind != "stmt":
-                continue
-            if not any(x is n.ast for s in c.body for x in ast.walk(s)):
-                continue
-            if isinstance(n.ast, ast.Assign) and dotted(n.ast.targets[0]) == "self._state":
-                cs.next_state.append((dotted(n.ast.value) or "?").split(".")[-1])
-            for x in walk_no_nested(n.ast):
-                if isinstance(x, ast.Call):
-                    d = dotted(x.func) or ""
-                    if d == "self._socket.send":
-                        msg = next((k.value for k in x.keywords if k.arg == "message"), x.args[0] if x.args else None)
-                        pol = next((k.value for k in x.keywords if k.arg == "retry_policy"), x.args[1] if len(x.args) > 1 else None)
-                        chain = _class_chain(ctx, m, mr.expand(msg, n)) if msg is not None else []
-                        pq = ctx.repo.qual(m, mr.expand(pol, n)) if pol is not None else None
-                        cs.sends.append((chain, (pq or "?").split(".")[-1], x))
-                    elif d.startswith("self.") and d != "self._socket.send":
-                        cs.calls.append((d, [norm_text(a) for a in x.args], x))
-        cases.append(cs)
+        # one virtual case per admitted state; the body is specialised for that state (`if state == X: return` folds away)
+        for S in (states or [None]):
+            body = _specialise(mr, c.body, S) if S is not None and len(states) > 1 else list(c.body)
+            cs = Case(i, c, classes, caps, ([S] if S is not None else []), other)
+            members = set()
+            for st_ in body:
+                for x in ast.walk(st_):
+                    members.add(id(x))
+            for n in mr.cfg.nodes:
+                if n.ast is None or n.kind != "stmt" or id(n.ast) not in members:
+                    continue
+                if isinstance(n.ast, ast.Assign) and dotted(n.ast.targets[0]) == "self._state":
+                    cs.next_state.append((dotted(n.ast.value) or "?").split(".")[-1])
+                for x in walk_no_nested(n.ast):
+                    if isinstance(x, ast.Call):
+                        d = dotted(x.func) or ""
+                        if d == "self._socket.send":
+                            msg = next((k.value for k in x.keywords if k.arg == "message"), x.args[0] if x.args else None)
+                            pol = next((k.value for k in x.keywords if k.arg == "retry_policy"), x.args[1] if len(x.args) > 1 else None)
+                            chain = _class_chain(ctx, m, mr.expand(msg, n)) if msg is not None else []
+                            pq = ctx.repo.qual(m, mr.expand(pol, n)) if pol is not None else None
+                            cs.sends.append((chain, (pq or "?").split(".")[-1], x))
+                        elif d.startswith("self.") and d != "self._socket.send":
+                            cs.calls.append((d, [norm_text(a) for a in x.args], x))
+            cases.append(cs)
     return cases, mr
+
+
+def _state_test(a):
+    """('in', [state names]) / ('notin', [...]) for a comparison of self._state with enum members, else None"""
+    if not (isinstance(a, ast.Compare) and len(a.ops) == 1):
+        return None
+    l, op, r = a.left, a.ops[0], a.comparators[0]
+    name = lambda e: (dotted(e) or "?").split(".")[-1]  # noqa: E731
+    if isinstance(op, (ast.Eq, ast.Is, ast.NotEq, ast.IsNot)):
+        if dotted(l) == "self._state" and dotted(r):
+            other = r
+        elif dotted(r) == "self._state" and dotted(l):
+            other = l
+        else:
+            return None
+        return ("in" if isinstance(op, (ast.Eq, ast.Is)) else "notin", [name(other)])
+    if isinstance(op, (ast.In, ast.NotIn)) and dotted(l) == "self._state" and isinstance(r, (ast.Tuple, ast.List, ast.Set)) and all(dotted(e) for e in r.elts):
+        return ("in" if isinstance(op, ast.In) else "notin", [name(e) for e in r.elts])
+    return None
+
+
+def _specialise(mr, stmts, S):
+    """The statements of a case body that execute when self._state == S on entry: tests on the state fold, a taken `return`
+    ends the body. Nested statements keep their identity (they are looked up in the CFG afterwards)."""
+    out = []
+    for st in stmts:
+        if isinstance(st, ast.If):
+            node = mr.node_of(st.test) if hasattr(mr, "node_of") else None
+            test = mr.expand(st.test, node) if node is not None else st.test
+            neg = False
+            while isinstance(test, ast.UnaryOp) and isinstance(test.op, ast.Not):
+                test, neg = test.operand, not neg
+            t = _state_test(test)
+            if t is not None:
+                val = (S in t[1]) if t[0] == "in" else (S not in t[1])
+                if neg:
+                    val = not val
+                sub = _specialise(mr, st.body if val else st.orelse, S)
+                out.extend(sub)
+                if sub and isinstance(sub[-1], (ast.Return, ast.Raise)):
+                    return out
+                continue
+        out.append(st)
+        if isinstance(st, (ast.Return, ast.Raise)):
+            return out
+    return out
+
+
+
 
 
 def r1(ctx, modname, cases, mr):
